@@ -376,6 +376,13 @@ pub fn c05(a: &Analysis<'_>, out: &mut Vec<Violation>) {
                 out.push(v("C05", "retry-numbering", format!("{name}: attempt #{k} carries {:?}, expected {want:?} (budget {budget:?})", at.retries)).attr("k", k.min(3)));
             }
         }
+        // one attempt per retry counter: an attempt dispatched twice shows as two Started events
+        for at in &ats {
+            let n = at.seq.iter().filter(|i| matches!(evs[**i].k, K::ScStarted)).count();
+            if n != 1 {
+                out.push(v("C05", "attempt-started-twice", format!("{name}: attempt {:?} has {n} Started events", at.retries)));
+            }
+        }
         // re-run exactly on failure within budget
         for (k, at) in ats.iter().enumerate() {
             let failed = at.failed(evs);
